@@ -102,7 +102,7 @@ def compare_report(rep, out, want_json):
 def check_cli(inp):
     argv, stdin = inp["argv"], inp.get("stdin")
     if inp.get("subprocess"):
-        r = cli.run_subprocess(argv, stdin)
+        r = cli.run_subprocess(argv, stdin, console_script=bool(inp.get("console_script")))
     else:
         r = cli.run_inprocess(argv, stdin)
     fails = []
@@ -235,9 +235,10 @@ def hyp_part(n_examples, shard, n_sub):
             sub_budget[0] -= 1
             part.classes["subprocess"] += 1
             a = cli.run_inprocess(inp["argv"], inp["stdin"])
-            b = cli.run_subprocess(inp["argv"], inp["stdin"])
+            cs = bool(sub_budget[0] % 2)          # alternately 'python -m cvss.cvss_calculator' and the console-script launcher
+            b = cli.run_subprocess(inp["argv"], inp["stdin"], console_script=cs)
             if b["status"] != 0 or "Traceback" in b["err"]:
-                raise runner.Falsified("cli", dict(inp, subprocess=True), [failure("exit status 0, no traceback", {"status": b["status"], "stderr": b["err"][-300:]})])
+                raise runner.Falsified("cli", dict(inp, subprocess=True, console_script=cs), [failure("exit status 0, no traceback", {"status": b["status"], "stderr": b["err"][-300:]})])
             if a["out"] != b["out"]:
                 raise runner.Falsified("cli", dict(inp, subprocess=True), [failure(a["out"][-300:], b["out"][-300:], note="subprocess stdout differs from in-process stdout")])
     runner.run_hyp(part, t, "C17.hyp")
